@@ -77,6 +77,8 @@ def replay(ctx, path):
     d = json.load(open(path))
     drv = ctx.cxx("drv_crc", ["drv_crc.cpp", core.REPO + "/igris/util/crc.c"])
     e = d["event"]
+    if e.get("e") == "Fault":
+        return core.replay_fault(ctx, d, drv, "CrcTrace", path)
     t = ctx.drive(drv, ["R", line(e["fn"], e["seed"], e["data"], e["off"], e["cut"])], "replay")
     ctx.report(ctx.judge("CrcTrace", [t]))
     return ctx.finish(rule="replay of " + path)
